@@ -135,7 +135,13 @@ def run(ctx):
                 "plus the fixed H1 witness geometry r=10, t=9, nr=3")
     ctx.trusted += ["scipy.sparse.linalg.spsolve (output checked against the model's equations)",
                     "hypothesis H1 (dr < 2 r_inner) is part of `good`; C06_needs_H1_refuted shows it cannot be dropped"]
+    from harness import translators as _tr
+    ctx.trusted += ["translator harness/translators/thermalstencil.py (Python ast -> Gallina; numpy slicing / edge padding / C-order flattening and "
+                    "scipy.sparse.diags / coo_matrix placement read as index shifts)"]
+    _tr.import_all()
+    ctx.gen("ThermalStencil", _tr.REGISTRY["ThermalStencil"])
     ctx.prove("C06")
+    ctx.prove("C02_stencil")
     if ctx.tier == "thorough":
         ctx.coqchk("C06")
     cfgs = gen(ctx)
